@@ -312,6 +312,10 @@ def main():
     only_ops = set(only_ops.split(",")) if only_ops else None
     only_fn = opt("--func")
     limit = int(opt("--limit", "0"))
+    only_labels = opt("--labels")
+    if only_labels:
+        with open(only_labels) as fh:
+            only_labels = set(json.load(fh))
     out_path = opt("--out", "/tmp/w/mutation_audit.json")
     tasks, meta = [], {}
     for rel in files:
@@ -335,6 +339,8 @@ def main():
             line = getattr(nodes[idx], "lineno", 0)
             label = f"{rel}:{line} {fn} [{op}:{detail}] {before}"
             if label in meta:
+                continue
+            if only_labels is not None and label not in only_labels:
                 continue
             meta[label] = {"file": rel, "line": line, "function": fn, "op": op, "detail": detail,
                            "before": before, "props": props}
